@@ -62,6 +62,7 @@ def scenarios(ctx):
                                                 "extract": "custom", "qualified": True, "nofl": True}, "steps": steps})
     out += RC.byte_quota_scenarios("c13", {"nofl": True})
     out += RC.fast_rate_scenarios("c13", rng, {"nofl": True})
+    out += RC.nondividing_scenarios("c13", {})
     return out
 
 
